@@ -49,7 +49,11 @@ Skeletons ==
           <<"%2e%2e", "s1">>, <<"%2E%2E", "s1">>, <<"..%2f", "s1">>, <<"..%2fs1">>, <<"%2e%2e%2fs1">>, <<"..;", "s1">>,
           <<"..", "..", "l2", "s2">>, <<"..", "l2", "..", "s1">>,
           <<"..", "root-private", "s4">>, <<"..", "root.bak">>, <<"d", "..", "..", "root-private", "s4">>, <<"..", "root-private", "..", "root.bak">>,
-          <<"..", "root", "f.txt">>, <<"d", "..", "f.txt">>}      \* the last two re-enter / stay inside: free for C01 unless bytes of a secret appear
+          <<"..", "root", "f.txt">>, <<"d", "..", "f.txt">>,
+          \* a planted secret named by its ABSOLUTE location (the harness substitutes @ABSTOP@), after an encoded, doubly encoded,
+          \* back-slash or plain leading separator: a path builder that lets a segment restart at the file-system root
+          <<"%2F@ABSTOP@", "s0">>, <<"%2f@ABSTOP@", "s0">>, <<"%252F@ABSTOP@", "s0">>, <<"%5C@ABSTOP@", "s0">>, <<"@ABSTOP@", "s0">>,
+          <<"", "@ABSTOP@", "s0">>, <<"d", "%2F@ABSTOP@", "s0">>, <<"%2F@ABSTOP@", "s0.html">>, <<"C:%5C@ABSTOP@", "s0">>}      \* the last two re-enter / stay inside: free for C01 unless bytes of a secret appear
 \* (c) one-segment spellings that only climb if the server decodes them: an encoded (or doubly encoded, or
 \*     back-slash) separator glued to plain or encoded dots.  The specification has no decoding step, so each is an
 \*     ordinary (absent) name and must never produce secret bytes.
@@ -131,7 +135,8 @@ C03Cases(u) ==
     \cup {Req(31, "prod", "GET", "/", <<RangeName(i)>>, "", "", Rng(<<>>), "") : i \in {1, 5}}
     \* the NUMBER of specs around powers of two (a server-side cap must not silently drop parts)
     \cup {Req(31, "prod", "GET", "/", <<RangeName(5)>>, "", "", Rng([j \in 1..n |-> FL(Num((j - 1) % 10), Num((j - 1) % 10))]), "") :
-            n \in (IF K >= 3 THEN {4, 8, 9, 16, 17, 32, 33, 64, 65, 100, 129} ELSE {9, 17, 33, 65})}
+            n \in (IF K >= 3 THEN {4, 8, 9, 16, 17, 32, 33, 64, 65, 100, 129} ELSE {9, 17, 33, 65})
+                   \cup {255, 256, 257, 1023, 1024, 1025, 2000}}       \* long lists: judged by status, framing and part count (Static!BigList)
     \cup UNION {{Req(21, "prod", "GET", "/", sg[1], "", "", Rng(ss), "") : ss \in {<<x>> : x \in Reduced(sg[2])} \cup {<<FL(Num(0), Num(1)), Su(Num(2))>>}}
                : sg \in {<<<<"docs">>, 8192>>, <<<<"docs", "">>, 8192>>, <<<<"page">>, 4096>>, <<<<"lnk">>, 256>>, <<<<"ldir", "readme.md">>, 4095>>,
                           <<<<"docs", "deep", "deep">>, 5>>}}
@@ -145,6 +150,11 @@ C09Cases(u) ==
               e \in Entries, s \in Servable(W),
               rg \in {NoRange, Rng(<<FL(Num(0), Num(0))>>)}, org \in {"", "https://a.example"}, pf \in {FALSE, TRUE}}
            : W \in {MixWorld(21, FALSE), FlatWorld(23)}}
+    \* every kind of range-spec with HEAD and OPTIONS (open-ended, suffix, two specs, beyond the end), on one tree, production entry
+    \cup {Req(21, "prod", "GET", "/", s, "", "", rg, "") :
+            s \in {<<"b.bin">>, <<"docs">>, <<"page">>, <<"lnk">>, <<"a.txt">>, <<"docs", "readme.md">>},
+            rg \in {Rng(<<Fo(Num(1))>>), Rng(<<Su(Num(2))>>), Rng(<<Fo(Num(0))>>), Rng(<<FL(Num(1), Num(3))>>), Rng(<<FL(Num(0), Num(1)), Su(Num(1))>>),
+                    Rng(<<FL(Num(0), Num(99999))>>), Rng(<<Su(Num(99999))>>)}}
 
 -----------------------------------------------------------------------------
 \* Router: reserved names, their spellings with query / in a sub-directory / in upper case, unknown paths and the
